@@ -1,12 +1,13 @@
 import RreModel.C02.Wire
 import RreModel.C03.Spec
+import RreModel.C02.Passes
 /-
 Oracle of C02/C03: the Spec clauses evaluated on the *implementation's* observations of one history.
 The only state it keeps is reference bookkeeping derived from the observations themselves:
 the knowledge base (from the add/remove/enable calls of the case), the scan `Ref` of C02.Spec
 (from the firing log and the activations), the focused group and the facts as last observed.
-Glue — nothing here is used by a theorem; the predicates it calls (`Ref.scan`, `onePerActGroup`,
-`runCount`, `countersOk`, `fixpointOk`, `sortSal`) are the ones the theorems are about.
+Glue — nothing here is used by a theorem; the predicates it calls (`Ref.scan`, `segAccept`, `segWorkflow`, `passClausesOk`,
+`onePerActGroup`, `runCount`, `countersOk`, `fixpointOk`, `sortSal`) are the ones the theorems are about.
 -/
 namespace C02.Oracle
 open C02 C02.Wire
@@ -22,9 +23,12 @@ structure OSt where
   whether the knowledge base was edited since — only used for the coverage tags -/
   prevExec : Nat := 0
   kbEdited : Bool := false
-  /-- an `execute_workflow` call was made: its per-step results are not observable, so the reference bookkeeping cannot be
-  carried across it; the rest of the history is covered by the model diff only -/
+  /-- never set any more (kept for the record format): every call — `execute_workflow` included, whether it returns `Ok` or
+  `Err` — is replayed step by step / pass by pass, so the oracle keeps exact reference bookkeeping over the whole history -/
   blind : Bool := false
+  /-- (rule name, side) pairs seen so far: on which side of / at which boundary of a rule's date window an `execute_at_time`
+  timestamp of this history fell (coverage tags only) -/
+  dateSides : List (Nat × Nat) := []
   /-- `set_debug_mode` was called since the previous execute (coverage tag only) -/
   debugSet : Bool := false
 
@@ -53,53 +57,44 @@ def eligWalk (t : Nat) : Nat → Nat → List HEv → Except String Nat
   | foc, _, .focus g :: es => eligWalk t foc g es
   | foc, cur, .reset :: es => eligWalk t foc cur es
 
-def applyFacts (fs : List (Nat × Int)) : List Action → List (Nat × Int)
-  | [] => fs
-  | a :: as =>
-    match execAction { init with facts := fs } a with
-    | some st => applyFacts st.facts as
-    | none => fs
+def levOf : OEv → LEv
+  | .fire n => .fire n
+  | .act g => .act g
 
-def lastActivate (foc : Nat) : List Action → Nat
-  | [] => foc
-  | .activate g :: as => lastActivate g as
-  | _ :: as => lastActivate foc as
-
-def nextFire : List OEv → Option Nat
-  | [] => none
-  | .fire n :: _ => some n
-  | .act _ :: es => nextFire es
-
-def dropThroughFire : List OEv → List OEv
+/-- position-increasing runs of a log of names (only used to name the clause once the segmented replay has failed) -/
+def runsOf (vec : List Rule) : List Nat → List (List Nat)
   | [] => []
-  | .fire _ :: es => es
-  | .act _ :: es => dropThroughFire es
+  | n :: ns =>
+    match runsOf vec ns with
+    | [] => [[n]]
+    | run :: runs =>
+      match run with
+      | m :: _ =>
+        if (vec.findIdx? (fun r => r.name == n)).getD 0 < (vec.findIdx? (fun r => r.name == m)).getD 0 then (n :: run) :: runs
+        else [n] :: run :: runs
+      | [] => [n] :: runs
 
-/-- single-pass replay: walks the sorted vector next to the log. A rule that does not fire although the
-reference gate and its condition hold is a failure: for a rule of an activation group whose group is
-still free this is "the one that fires is not the first eligible one with a true condition". -/
-def replay (t : Nat) : List Rule → List OEv → List (Nat × Int) → Nat → Ref → List Nat → Option String
-  | [], evs, _, _, _, _ => if (nextFire evs).isSome then some "order" else none
-  | r :: rs, evs, fs, foc, R, af =>
-    if nextFire evs == some r.name then
-      -- the rule's own activations are applied before it is marked as fired
-      let R1 := r.actions.foldl (fun R a => match a with
-                                           | .activate g => { R with lk := R.lk.filter (fun p => p.1 ≠ g) }
-                                           | _ => R) R
-      let R3 := match R1.step (.fire r) with
-                | .ok R2 => R2
-                | .error _ => R1
-      let af' := match r.actGroup with
-                 | some a => a :: af
-                 | none => af
-      replay t rs (dropThroughFire evs) (applyFacts fs r.actions) (lastActivate foc r.actions) R3 af'
-    else
-      let blocked := match r.actGroup with
-                     | some a => af.contains a
-                     | none => false
-      if !blocked && C03.refGate R foc t r && r.cond.holds fs then
-        some (if r.actGroup.isSome then "activation_group_not_first" else "eligible_true_not_fired")
-      else replay t rs evs fs foc R af
+/-- the clause behind a failed segmented replay -/
+def segErrName (vec : List Rule) (names : List Nat) : SegErr → String
+  | .notFired _ true => "activation_group_not_first"
+  | .notFired _ false => "eligible_true_not_fired"
+  | .actionFailed _ _ _ => "ok_with_failing_action"
+  | .cycleCount => "pass_after_silent_pass"
+  | .earlyStopAfterFiring => "early_stop_after_firing_pass"
+  | .leftover =>
+    -- a firing that no pass of the reference explains: two rules of one activation group inside one walk of the vector,
+    -- or a rule fired out of vector order / although its condition is false on the reference facts
+    if (runsOf vec names).any (fun run => !onePerActGroup (rulesOfNames vec run)) then "activation_group_twice"
+    else "unexplained_firing"
+
+/-- side of the date window `[e, x)` of a rule on which `t` falls: 0 before, 1 `t = e`, 2 inside, 3 `t = x`, 4 after -/
+def dateSide (r : Rule) (t : Nat) : Option Nat :=
+  match r.effective, r.expires with
+  | some e, some x =>
+    if e < x then
+      some (if t < e then 0 else if t = e then 1 else if t < x then 2 else if t = x then 3 else 4)
+    else none
+  | _, _ => none
 
 def positions (vec : List Rule) (names : List Nat) : List Nat :=
   names.filterMap (fun n => vec.findIdx? (fun r => r.name == n))
@@ -128,6 +123,7 @@ def checkExec (maxc t : Nat) (o : OSt) (ob : OpObs) : Except String OSt := do
   let vec := sortSal o.rules
   let fired := hevs.filterMap (fun e => match e with | .fire r => some r | _ => none)
   let mut o := o
+  let mut Rnext := R'
   o := addTag o (o.rules.length ≥ 33) "kb_ge_33"
   o := addTag o (o.rules.length ≥ 65) "kb_ge_65"
   o := addTag o (o.rules.length ≥ 129) "kb_ge_129"
@@ -140,18 +136,26 @@ def checkExec (maxc t : Nat) (o : OSt) (ob : OpObs) : Except String OSt := do
     if !C03.countersOk maxc c e f names.length o.rules.length then .error "counters"
     if maxc = 0 && !ob.events.isEmpty then .error "events_at_zero"
     if runCount (positions vec names) > c then .error "order_runs"
-    let single := c = 1 || (c = 2 && maxc > 2)
-    if single then
-      if !(names.isSublist (vec.map (·.name))) then .error "order"
-      if !onePerActGroup fired then .error "activation_group_twice"
-      match replay t vec ob.events o.facts foc0 o.R [] with
-      | some cl => .error cl
-      | none => pure ()
+    -- every pass of the call, recovered by the segmented replay, satisfies the single-pass clauses
+    let s0 : RSt := { facts := o.facts, foc := foc0, R := o.R }
+    let (s1, segs) ← match segAccept maxc t vec c s0 (ob.events.map levOf) with
+      | .error e => .error (segErrName vec names e)
+      | .ok (s', segs) =>
+        if s'.foc != ob.active then .error "focus_mismatch"
+        pure (s', segs)
+    -- the reference sets carried to the next call are the replay's (`C02.exec_passes_accepted_rel`: an exact image of the
+    -- engine's bookkeeping; `C02.history_passes_accepted`: along every history whose executes return `Ok`)
+    Rnext := s1.R
+    if segs.any (fun ns => !passClausesOk vec ns) then .error "pass_clauses"
+    let firing := (segs.filter (fun ns => !ns.isEmpty)).length
+    o := addTag o true "all_passes_checked"
+    o := addTag o (firing ≥ 2) "multi_pass_segmented"
+    o := addTag o (firing ≥ 2 && fired.any (·.actGroup.isSome)) "multi_pass_actgroup"
     if c < maxc && !C03.fixpointOk R' ob.active t o.rules ob.facts then .error "not_fixpoint"
     -- a return before the bound comes after a pass that fired nothing (`C03.early_stop_iff`): the firings are those
     -- of the c - 1 passes before it, each of which walks the sorted vector once
     if c < maxc && runCount (positions vec names) + 1 > c then .error "early_stop_after_firing_pass"
-    o := addTag o single "single_pass_checked"
+    o := addTag o (c = 1 || (c = 2 && maxc > 2)) "single_firing_pass"
     o := addTag o (c < maxc) "early_stop"
     o := addTag o (c == maxc && maxc > 0) "at_bound"
     o := addTag o (c ≥ 3) "cycles_ge_3"
@@ -159,7 +163,19 @@ def checkExec (maxc t : Nat) (o : OSt) (ob : OpObs) : Except String OSt := do
     o := addTag o (maxc == 0) "max_cycles_0"
     o := addTag o (f == 0) "exec_silent"
     o := { o with prevExec := if c < maxc then 1 else 2 }
-  | .err => o := { addTag o true "err" with prevExec := 3 }
+  | .err =>
+    -- the call failed: every pass before the failure is a firing pass of the reference and the log ends, inside a pass, exactly
+    -- at the first rule due to fire one of whose actions fails on the reference facts (`C02.exec_err_accepted`)
+    let s0 : RSt := { facts := o.facts, foc := foc0, R := o.R }
+    match segCycles t vec maxc s0 (ob.events.map levOf) with
+    | .error (.actionFailed _ true sp) =>
+      if sp.foc != ob.active then .error "focus_mismatch"
+      -- the sets carried on are the replay's, as after a call that returned `Ok` (`C02.history_passes_accepted`)
+      Rnext := sp.R
+    | .error (.actionFailed _ false _) => .error "err_events_mismatch"
+    | .error e => .error (segErrName vec names e)
+    | .ok _ => .error "err_without_failing_action"
+    o := { addTag (addTag o true "err") true "err_call_replayed" with prevExec := 3 }
   | .other s => .error s!"bad_result:{s}"
   o := addTag o (!fired.isEmpty) "fired"
   o := addTag o (fired.any (·.noLoop)) "noloop_fire"
@@ -169,7 +185,22 @@ def checkExec (maxc t : Nat) (o : OSt) (ob : OpObs) : Except String OSt := do
   o := addTag o (fired.any (fun r => r.agenda.isSome && r.group != 0)) "grouped_fire"
   o := addTag o (ob.events.any (fun e => match e with | .act _ => true | _ => false)) "activate_action"
   o := addTag o (o.rules.any (fun r => !C03.refGate R' ob.active t r && r.cond.holds ob.facts)) "gate_blocks_true_rule"
-  pure { o with R := R', active := ob.active, pending := none, facts := ob.facts, kbEdited := false, debugSet := false }
+  -- date windows: where the timestamp of this call falls relative to the rules' windows
+  o := addTag o (fired.any (fun r => r.effective == some t)) "fired_at_effective"
+  o := addTag o (o.rules.any (fun r => r.enabled && r.expires == some t && r.cond.holds o.facts)) "true_rule_at_expires"
+  o := addTag o (o.rules.any (fun r => r.enabled && (match r.effective with | some e => t < e && e ≤ t + NS | none => false) && r.cond.holds o.facts))
+        "true_rule_just_before_effective"
+  o := addTag o (fired.any (fun r => match r.expires with | some x => t < x && x ≤ t + NS | none => false)) "fired_just_before_expires"
+  -- a bound of a rule with a true condition falls into the same second / millisecond / microsecond as the timestamp without
+  -- being equal to it (a comparison on truncated instants gets these wrong)
+  let bounds := (o.rules.filter (fun r => r.enabled && r.cond.holds o.facts)).flatMap (fun r => r.effective.toList ++ r.expires.toList)
+  o := addTag o (bounds.any (fun b => b != t && b / NS == t / NS)) "bound_in_same_second"
+  o := addTag o (bounds.any (fun b => b != t && b / 1000000 == t / 1000000)) "bound_in_same_millisecond"
+  o := addTag o (bounds.any (fun b => b != t && b / 1000 == t / 1000)) "bound_in_same_microsecond"
+  let sides := o.rules.filterMap (fun r => (dateSide r t).map (fun sd => (r.name, sd)))
+  let ds := sides.foldl (fun acc p => if acc.contains p then acc else p :: acc) o.dateSides
+  o := addTag o (o.rules.any (fun r => [0, 1, 2, 3, 4].all (fun sd => ds.contains (r.name, sd)))) "window_all_five_sides"
+  pure { o with R := Rnext, active := ob.active, pending := none, facts := ob.facts, kbEdited := false, debugSet := false, dateSides := ds }
 
 def expectRes (ob : OpObs) (s : List String) : Except String Unit :=
   match ob.res with
@@ -225,21 +256,71 @@ def checkCall (maxc : Nat) (o : OSt) (c : Call) (ob : OpObs) : Except String OSt
     expectRes ob ["u"]
     if ob.active != o.active then .error "focus_mismatch"
     pure (addTag { o with rules := [], kbEdited := o.kbEdited || !o.rules.isEmpty, facts := ob.facts } true "kb_clear")
+  | .kbReplace rs =>
+    if !ob.events.isEmpty then .error "events_outside_execute"
+    expectRes ob ["u"]
+    if ob.active != o.active then .error "focus_mismatch"
+    -- the reference knowledge base follows the call: the rules of the new base in the order they were added (a second
+    -- rule of the same name is refused by `add_rule`); the carried sets are the engine's, not the knowledge base's
+    let rules' := (callStep maxc nowT { init with rules := o.rules } c).1.rules
+    let o := addTag o (rules'.length > o.rules.length) "kb_replace_larger"
+    let o := addTag o (o.prevExec != 0) "kb_replace_after_exec"
+    pure (addTag { o with rules := rules', kbEdited := true, facts := ob.facts } true "kb_replace")
   | .wfStep g =>
     -- `set_agenda_focus(g)` (a new activation of `g`), then `execute`
     let o1 := { o with R := { o.R with lk := o.R.lk.filter (fun p => p.1 ≠ g) }, active := g }
     checkExec maxc nowT (addTag (addTag o1 (o.active == g) "refocus_active") true "workflow_step") ob
   | .workflow gs =>
+    -- the clauses that need no segmentation, on the whole log: fired rules are known, enabled and inside their dates
+    let some hevs := toHEv o.rules ob.events | .error "fired_unknown_rule"
+    for e in hevs do
+      match e with
+      | .fire r =>
+        if !r.enabled then .error "fired_disabled"
+        if !r.activeAt nowT then .error "fired_outside_dates"
+      | _ => pure ()
+    -- step-by-step replay: every step is a recorded activation of its group followed by an `execute` whose passes are
+    -- recovered as for a plain call (its `cycle_count` is not observable: the reference runs to a silent pass or the bound).
+    -- An activation still queued by `activate_agenda_group` is re-applied by the first step's `execute` (after the step's own
+    -- `set_agenda_focus`), so the first step runs under that group's focus.
+    let vec := sortSal o.rules
+    let names := firedNames ob.events
+    let s0 : RSt := { facts := o.facts, foc := o.active, R := o.R }
+    let (s1, groups) := match o.pending, gs with
+      | some g', g1 :: rest => (s0.focus g1, g' :: rest)
+      | _, _ => (s0, gs)
+    let replay := segWorkflow maxc nowT vec groups s1 (ob.events.map levOf)
+    let pending' := if gs.isEmpty then o.pending else none
     match ob.res with
-    | .err => pure { addTag o true "workflow" with blind := true }
+    | .err =>
+      -- `Err`: `steps_executed` is not reported; the replay must stop, inside some step, exactly at a rule whose action fails
+      match replay with
+      | .error (.actionFailed _ true sp) =>
+        if sp.foc != ob.active then .error "focus_mismatch"
+        let o := addTag (addTag (addTag o true "workflow") true "workflow_err_replayed") true "err"
+        pure { o with R := sp.R, active := ob.active, pending := pending', facts := ob.facts, prevExec := 3, kbEdited := false, debugSet := false }
+      | .error (.actionFailed _ false _) => .error "err_events_mismatch"
+      | .error e => .error (segErrName vec names e)
+      | .ok _ => .error "err_without_failing_action"
     | .other r =>
       match (r.drop 1).toString.toNat? with
       | some k =>
         if !r.startsWith "w" then .error s!"bad_result:{r}"
         if k > gs.length || (k = 0 && !gs.isEmpty) then .error "workflow_steps"
         -- each step is one `execute`: at most `max_cycles` passes over the knowledge base (`C03.countersOk` per step)
-        if (firedNames ob.events).length > k * maxc * o.rules.length then .error "workflow_counters"
-        pure { addTag o true "workflow" with blind := true }
+        if names.length > k * maxc * o.rules.length then .error "workflow_counters"
+        match replay with
+        | .error e => .error (segErrName vec names e)
+        | .ok w =>
+          if !w.rest.isEmpty then .error (segErrName vec names .leftover)
+          if w.val.length != k then .error "workflow_steps"
+          if w.s.foc != ob.active then .error "focus_mismatch"
+          if w.val.any (fun step => step.any (fun ns => !passClausesOk vec ns)) then .error "pass_clauses"
+          let o := addTag (addTag o true "workflow") true "workflow_steps_replayed"
+          let o := addTag o (k ≥ 2) "workflow_ge_2_steps"
+          let o := addTag o (w.val.any (fun step => (step.filter (fun ns => !ns.isEmpty)).length ≥ 2)) "workflow_multi_pass_step"
+          pure { o with R := w.s.R, active := ob.active, pending := pending', facts := ob.facts,
+                        prevExec := 0, kbEdited := false, debugSet := false }
       | none => .error s!"bad_result:{r}"
     | _ => .error "bad_result"
 
